@@ -48,6 +48,9 @@ def gen_history(rng):
                 ops.append(['mutate', 'set', rng.randint(0, 3), rng.randint(90, 99)])
             else:
                 ops.append(['mutate', m])
+        elif r < 0.83:
+            # ask for the ordered name list and edit the returned list (it must be the caller's own copy)
+            ops.append(['serieslist', rng.choice(['reverse', 'sort_desc', 'overwrite'])])
         elif r < 0.86:
             # render the stored results (solver-level entry point), default or explicit format
             ops.append(['csv', rng.choice([None, None, '%d', '%.3f', '%10.4e'])])
@@ -126,11 +129,26 @@ def run_impl(h):
         elif op[0] == 'cutoff':
             mod.TimeSeriesCutoff = op[1]
             outs.append(None)
+        elif op[0] == 'serieslist':
+            lst = mod.EquationSolver.TimeSeries.GetSeriesList()
+            if op[1] == 'reverse':
+                lst.reverse()
+            elif op[1] == 'sort_desc':
+                lst.sort(reverse=True)
+            elif lst:
+                lst[0] = 'zzz_not_a_series'
+            outs.append(None)
         elif op[0] == 'csv':
-            t = mod.EquationSolver.GenerateCSVtext() if op[1] is None else mod.EquationSolver.GenerateCSVtext(op[1])
+            try:
+                t = mod.EquationSolver.GenerateCSVtext() if op[1] is None else mod.EquationSolver.GenerateCSVtext(op[1])
+            except Exception as e:  # noqa  -- rendering must not depend on what callers did with returned lists
+                t = 'RAISED ' + common.exc_class(e)
             rendered.setdefault(op[1], []).append(t)
             outs.append(None)
-    csv_texts.append(mod.EquationSolver.GenerateCSVtext('%d'))
+    try:
+        csv_texts.append(mod.EquationSolver.GenerateCSVtext('%d'))
+    except Exception as e:  # noqa
+        csv_texts.append('RAISED ' + common.exc_class(e))
     return {'outs': outs, 'before': before, 'after': snapshot(mod), 'csv': csv_texts,
             'rendered': [[k, v] for k, v in rendered.items()]}
 
@@ -185,6 +203,8 @@ def oracle(h, res):
         for nm, vals in h['holders']['main']:
             holder[nm] = list(vals)
         want = '%.5g' if fmt is None else fmt
+        if texts[0].startswith('RAISED '):
+            continue
         rows = texts[0].split('\n')[1:-1]
         names = texts[0].split('\n')[0].split('\t') if texts[0] else []
         n = min([len(v) for _, v in h['holders']['main']] or [0])
@@ -244,7 +264,7 @@ def emit_history(h, res):
         coq_option(None if h['cutoff0'] is None else coq_nat(h['cutoff0'])), coq_bool(h['suppress']))
     ops = []
     for op in h['ops']:
-        if op[0] == 'csv':
+        if op[0] in ('csv', 'serieslist'):
             continue
         if op[0] == 'get':
             ops.append('Get %s %s %s' % (coq_string(op[1]), coq_string(op[2]),
@@ -264,7 +284,7 @@ def emit_history(h, res):
             ops.append('SetCutoff %s' % coq_option(None if op[1] is None else coq_nat(op[1])))
     outs = []
     for op_, o in zip(h['ops'], res['outs']):
-        if op_[0] == 'csv':
+        if op_[0] in ('csv', 'serieslist'):
             continue
         if o is None:
             outs.append('None')
@@ -365,4 +385,4 @@ def replay(path):
     for f in fails:
         print('FAILS:', f['key'], f['what'][:300])
     print('replay: %s' % ('property violated' if fails else 'property holds on this input'))
-    return 1 if fails else 0
+    return common.replay_status(PID, fails)
